@@ -23,7 +23,7 @@ BOUND = {"quick": "deviation bound 2 around the centre on 3 sub-tissues of a 7-c
          "thorough": "deviation bound 2 on all connected sub-tissues of a 7-cell base (>= 2 cells), full wrap x sign x tail x ids product on three tissues"}
 ASSUMPTIONS = ["dumps are laid out like the shipped ones: section headers, one blank line before the next header, two-token area comment closing every face",
                "coordinates are compared after rounding to 3 decimals, densities and multipliers to 4"]
-REQUIRED_TAGS = {"all": ["wrapped", "negative_refs", "no_density", "orphans", "gaps", "crlf", "gt_checked", "single_line_face"]}
+REQUIRED_TAGS = {"all": ["wrapped", "negative_refs", "no_density", "orphans", "gaps", "crlf", "gt_checked", "single_line_face", "exponent_notation"]}
 
 IDS = [["seq"], ["gap", 3, 5], ["rev"], ["big", 100000]]
 SIGNS = ["asbuilt", "reversed_loops", "alternating", "flip_edges"]
@@ -44,7 +44,15 @@ def idmap(spec, n):
 
 def generate(at, cfg):
     """returns (vertices, edges, faces, bodies, extra_v, extra_e, expect)"""
-    jpos, ipts = T.geometry(at, cfg["k"], T.CMap([T.mob(0.04 + 0.01j), T.aff(cfg["mag"], 0.3 * cfg["mag"])]))
+    cmap = T.CMap([T.mob(0.04 + 0.01j), T.aff(cfg["mag"], 0.3 * cfg["mag"])])
+    if cfg.get("origin"):
+        # translate the whole tissue so that one junction lands a few 1e-5 from the origin (or 1e16 away): its coordinates are
+        # then written in exponent notation by any serialiser
+        j0 = sorted(at["J"], key=int)[0]
+        z0 = cmap(T.zc(at["J"][j0]))
+        target = complex(4e-05, -2.5e-05) if cfg["origin"] == "tiny" else complex(1e16, -3e16)
+        cmap = cmap.then(T.aff(1.0, target - z0))
+    jpos, ipts = T.geometry(at, cfg["k"], cmap)
     jids = sorted(at["J"], key=int)
     coords = [jpos[j] for j in jids]
     nat_j = {j: i for i, j in enumerate(jids)}
@@ -178,6 +186,8 @@ def judge(path, expect, cfg, tags):
     if prob:
         V.append({"what": "parsed mesh is inconsistent", "detail": prob[:3]})
         return V
+    if cfg.get("origin") == "huge":
+        return V       # at 1e16 neighbouring vertices coincide in floating point: only the parse itself is judged
     import forsys.frames as ff
     fr, ex = fsutil.call(ff.Frame, 0, v, e, c, time=0.0, gt=True)
     if ex is not None:
@@ -236,13 +246,13 @@ class Dumps(ProductSystem):
         ax = {"wrap": [10] + [w for w in range(1, ml + 2) if w != 10],
               "sign": SIGNS, "tail": ["own", "inline"]}
         if not self.full:
-            ax.update({"ids": IDS, "dens": DENS, "orph": ORPH, "mag": MAG, "eol": ["\n", "\r\n"], "k": [2, 0, 5]})
+            ax.update({"ids": IDS, "dens": DENS, "orph": ORPH, "mag": MAG, "eol": ["\n", "\r\n"], "k": [2, 0, 5], "origin": [None, "tiny", "huge"]})
         else:
             ax.update({"ids": IDS[:2]})
         return ax
 
     def eval_config(self, base, cfg):
-        cfg = dict({"ids": ["seq"], "dens": ["all"], "orph": "none", "mag": 1.0, "eol": "\n", "k": 2}, **cfg)
+        cfg = dict({"ids": ["seq"], "dens": ["all"], "orph": "none", "mag": 1.0, "eol": "\n", "k": 2, "origin": None}, **cfg)
         at = self.abstract(base)
         vertices, edges, faces, bodies, xv, xe, expect = generate(at, cfg)
         path = os.path.join(tmpdir(), "d_%d_%s.dmp" % (os.getpid(), fsutil.state_hash([base, cfg])))
@@ -272,6 +282,8 @@ class Dumps(ProductSystem):
             tags.append("gaps")
         if cfg["eol"] == "\r\n":
             tags.append("crlf")
+        if any("e" in repr(float(x)) for v_ in vertices for x in v_[1:]):
+            tags.append("exponent_notation")
         cls = fsutil.state_hash([base[1], {k: v for k, v in cfg.items()}])[:10]
         return {"viol": viol, "known": known, "tags": tags, "cls": cls, "nontrivial": "wrapped" in tags or cfg["dens"] != ["all"] or cfg["orph"] != "none"}
 
